@@ -22,6 +22,8 @@ EXPLANATION = (
   "reader's dispatch list and the ruby attribute values / has_* capability flags equal doc/data_model.md and TTML; (INH) xml:lang "
   "and xml:space take the element's own value, else the parent's; (NUL-arith) optional temporal quantities are not used in "
   "arithmetic unguarded."
+  " (FIN-timing) the statements that combine begin / dur / end, evaluated over a grid of small rationals and absent attributes, equal TTML timing: begin relative to the implicit begin; end = min(begin + dur, implicit begin + end), else the one present, else the implicit end;"
+  " (STATE-alias / STATE-global) no function of the anchored modules mutates a module- or class-level container, rebinds module / class state or mutates a mutable default argument, so a result never depends on earlier calls;"
 )
 RULE_TEXT = "per extraction call site x exception class, per styling step, per element class x flag, per arithmetic use of an Optional time"
 UNDECIDED = ["par/seq/dur resolution and implicit durations as values", "white-space and anonymous-span semantics", "time expression arithmetic per syntax (h/m/s/ms/f/t)"]
